@@ -382,6 +382,9 @@ func runAuth(line string, t []string) string {
 		if t[1] != "-" {
 			l = strings.Split(t[1], ",")
 		}
+		// the service's own start-up order: the router is built (NewServer) before the NRF registration
+		// answers and OAuth2Required is set
+		chf_context.GetSelf().OAuth2Required = false
 		eng, _ = buildRouter(l)
 		authRouters[t[1]] = eng
 	}
